@@ -307,7 +307,16 @@ func genC18() {
 	fd = findFunc(implGo, "APK", "cachedPackage")
 	datSuffix, tarTrim := "", ""
 	var joinPos, hexPos, dataPos token.Pos
+	dhVar := "" // the local that receives a.datahash(..): its name is not part of the shape
 	if fd != nil {
+		ast.Inspect(fd, func(n ast.Node) bool {
+			if as, ok := n.(*ast.AssignStmt); ok && len(as.Rhs) == 1 && len(as.Lhs) >= 1 {
+				if c, ok := as.Rhs[0].(*ast.CallExpr); ok && exprText(c.Fun) == "a.datahash" {
+					dhVar = exprText(as.Lhs[0])
+				}
+			}
+			return true
+		})
 		ast.Inspect(fd, func(n ast.Node) bool {
 			c, ok := n.(*ast.CallExpr)
 			if !ok {
@@ -316,32 +325,31 @@ func genC18() {
 			switch exprText(c.Fun) {
 			case "filepath.Join":
 				if len(c.Args) == 2 {
-					if b, ok := c.Args[1].(*ast.BinaryExpr); ok && b.Op == token.ADD && exprText(b.X) == "datahash" {
+					if b, ok := c.Args[1].(*ast.BinaryExpr); ok && b.Op == token.ADD && dhVar != "" && exprText(b.X) == dhVar {
 						if s, ok := strLit(b.Y); ok {
 							datSuffix, joinPos = s, c.Pos()
 						}
 					}
 				}
 			case "hex.DecodeString":
-				if len(c.Args) == 1 && exprText(c.Args[0]) == "datahash" {
+				if len(c.Args) == 1 && dhVar != "" && exprText(c.Args[0]) == dhVar {
 					hexPos = c.Pos()
 				}
-			case "exp.PackageData":
-				if joinPos != token.NoPos && dataPos == token.NoPos {
-					dataPos = c.Pos()
-				}
 			case "strings.TrimSuffix":
-				if len(c.Args) == 2 && exprText(c.Args[0]) == "exp.PackageFile" {
+				if len(c.Args) == 2 && strings.HasSuffix(exprText(c.Args[0]), ".PackageFile") {
 					if s, ok := strLit(c.Args[1]); ok {
 						tarTrim = s
 					}
 				}
 			}
+			if se, ok := c.Fun.(*ast.SelectorExpr); ok && se.Sel.Name == "PackageData" && joinPos != token.NoPos && dataPos == token.NoPos {
+				dataPos = c.Pos()
+			}
 			return true
 		})
 	}
 	if datSuffix == "" || tarTrim == "" || hexPos == token.NoPos || dataPos == token.NoPos {
-		fail("%s: cachedPackage: filepath.Join(_, datahash+<lit>) / strings.TrimSuffix(exp.PackageFile, <lit>) / hex.DecodeString(datahash) / exp.PackageData() not all found", implGo)
+		fail("%s: cachedPackage: <d> := a.datahash(..) / filepath.Join(_, <d>+<lit>) / strings.TrimSuffix(_.PackageFile, <lit>) / hex.DecodeString(<d>) / _.PackageData() not all found", implGo)
 	}
 	g.def("cached_dat_suffix", "string", coqStr(datSuffix), "cachedPackage: the data member is <cacheDir>/<datahash><this>")
 	g.def("cached_tar_trim", "string", coqStr(tarTrim), "cachedPackage: the uncompressed tar is the member's name without this suffix")
